@@ -1,8 +1,9 @@
 """C12 — dataset tree consistency under histories of edits and copies; quoting laws.
 Proof: lean/Props/C12.lean.  Tie: `_quote`/`unquote` vs the Lean model exhaustively on short strings +
 random long ones; random operation histories over several live handles on the real model.py classes vs the
-Lean store (`c12-run`), every handle dumped after every operation.  Oracle: the invariant, identity
-separation and the frame condition evaluated directly on the real objects."""
+Lean store (`c12-run`), every handle dumped after every operation, lookups (`obj[key]`, dotted fall-back included)
+as operations of the history and after every operation.  Oracle: the invariant, identity separation, the frame
+condition, `dataset[v.id] is v` and history independence of every lookup, evaluated directly on the real objects."""
 import copy
 import re
 
@@ -787,6 +788,8 @@ def gen_history(fns, rng, maxlen):
                     key = rng.choice(list(o._dict.keys()))
                     if rng.random() < 0.15:
                         key = unquote(key)
+                    elif rng.random() < 0.1 and below(M, o):
+                        key = ".".join(rng.choice(below(M, o))[0])      # a dotted path is not a key of _dict
                 else:
                     key = rng.choice(pool)
                 do(("del", h, path, key))
@@ -978,7 +981,9 @@ def run(ctx):
                 "operation sequences (<= 25 ops quick, <= 60 thorough) over {new, set/replace (moving a root under a "
                 "container at a path), delete, copy, select-by-tuple, assign data, set attribute} on several live "
                 "handles, names from a pool with blanks, brackets, &, %, non-ASCII and 'dap4' prefixes, never '.' or "
-                "'/'; a quoting case is non-trivial when quoting changes the name, a history when it has more than 3 "
+                "'/'; plus lookup operations (obj[key]: ids, relative dotted paths, unquoted / foreign-prefixed / cut "
+                "forms, ghost ids of deleted variables) at random positions and before+after edits, and after every "
+                "operation A[v.id] and A[relative path] for every container A and every v below it on every handle; a quoting case is non-trivial when quoting changes the name, a history when it has more than 3 "
                 "ops; distinct by input")
     ctx.assumptions = ["Python's UTF-8 codec and urllib.parse.quote/unquote (modelled bytewise) are trusted",
                        "data objects are symbolic stand-ins: the tree code only stores, indexes and copies them",
